@@ -74,5 +74,30 @@ func C10Base(t *rapid.T) *world.Scenario {
 			}
 		}
 	}
+	// a caller in a retry loop sends the very same request object again
+	for i, st := range sc.Steps {
+		if st.Op != "req" || st.Req.ReuseReq || !Pct(t, "same"+itoa(int64(i)), 25) {
+			continue
+		}
+		for j := i - 1; j >= 0; j-- {
+			p := sc.Steps[j]
+			if p.Op == "req" && !p.Req.ReuseReq && p.Req.Method == st.Req.Method && p.Req.URL == st.Req.URL && sameHeader(p.Req.Header, st.Req.Header) && p.Req.EmptyMethod == st.Req.EmptyMethod {
+				st.Req.SameObj = j + 1
+				break
+			}
+		}
+	}
 	return sc
+}
+
+func sameHeader(a, b [][2]string) bool {
+	if len(a) != len(b) {
+		return false
+	}
+	for i := range a {
+		if a[i] != b[i] {
+			return false
+		}
+	}
+	return true
 }
